@@ -1,7 +1,7 @@
 #!/bin/sh
 # usage: tools/seed_regression.sh [ids...] — apply every stored seed to /repo, run the check of the property it breaks, undo; one line each
 cd /verif
-IDS="$*"; [ -z "$IDS" ] && IDS=$(ls seeded)
+IDS="$*"; [ -z "$IDS" ] && IDS=$(ls seeded | grep -v REGRESSION)
 for s in $IDS; do
   prop=$(python3 -c "
 import json,re,sys
